@@ -52,7 +52,8 @@ CHECKS = {
     "C06": dict(
         text="Proof that struct-field keys equal serde's wire names for all 8 rules x all renames x all identifiers; for variants the proved part is the "
              "agreeing rule set, the rest is shown false by kernel witnesses (known finding K06a). Attribute scanner: skip decision proved for all token lists; "
-             "tied to the real SerdeParser/StructParser/StructContext per case over the attribute item grammar.",
+             "tied to the real SerdeParser/StructParser/StructContext per case over the attribute item grammar, and to the emitted types.ts of random "
+             "projects (every declaration carries exactly the wire names of its fields / variants).",
         design_ref="DESIGN.md section 7.C06, Appendix G",
         note="Trusted: Lean kernel; transcription of serde_derive case.rs; proc_macro2 token text observed per case.",
         technique="Lean 4 theorems + kernel-evaluated witnesses + differential correspondence",
